@@ -40,12 +40,13 @@ def depth_of(tier):
 
 
 def task_names(tier):
-    return ['engine', 'termination', 'reject/2.0', 'reject/3.0', 'only30', 'wrappers', 'init', 'actions/2.0', 'actions/3.0', 'unescape/str', 'unescape/uri', 'tokens']
+    return ['engine', 'termination', 'reject/2.0', 'reject/3.0', 'only30', 'wrappers', 'init', 'actions/2.0', 'actions/3.0', 'unescape/str', 'unescape/uri', 'tokens', 'framing']
 
 
 def _run_task(name, tier):
     parts = name.split('/')
-    if parts[0] in ('engine', 'unescape'):
+    if parts[0] in ('engine', 'unescape', 'framing'):
+        # framing: hszinc.parse hands EVERY grid of the document - in single mode too - to the grid parser (a broken second grid is a broken document)
         r = C03.run_task(name, tier)
         return r
     T = Task(name)
